@@ -562,3 +562,77 @@ pub fn variant_name(p: &Packet) -> String {
         .unwrap_or("")
         .to_string()
 }
+
+/// Every time field of the protocol: (spec kind, spec field, resolution in ms, wire width in bits,
+/// setter on a packet of that kind).
+pub struct DurField {
+    pub kind: &'static str,
+    pub field: &'static str,
+    pub res_ms: u64,
+    pub bits: u32,
+    pub set: fn(&mut Packet, Duration) -> bool,
+}
+
+macro_rules! df {
+    ($kind:expr, $field:expr, $res:expr, $bits:expr, $variant:ident, $f:ident) => {
+        DurField {
+            kind: $kind,
+            field: $field,
+            res_ms: $res,
+            bits: $bits,
+            set: |p, d| match p {
+                Packet::$variant(x) => {
+                    x.$f = d;
+                    true
+                },
+                _ => false,
+            },
+        }
+    };
+}
+
+macro_rules! dsmall {
+    ($kind:expr, $res:expr, $variant:ident) => {
+        DurField {
+            kind: $kind,
+            field: "UVal",
+            res_ms: $res,
+            bits: 32,
+            set: |p, d| match p {
+                Packet::Small(x) => {
+                    x.subt = SmallType::$variant(d);
+                    true
+                },
+                _ => false,
+            },
+        }
+    };
+}
+
+pub fn duration_fields() -> Vec<DurField> {
+    vec![
+        df!("ISI", "Interval", 1, 16, Isi, interval),
+        df!("CPP", "Time", 1, 16, Cpp, time),
+        df!("CON", "Time", 10, 16, Con, time),
+        df!("OBH", "Time", 10, 16, Obh, time),
+        df!("HLV", "Time", 10, 16, Hlv, time),
+        df!("LAP", "LTime", 1, 32, Lap, ltime),
+        df!("LAP", "ETime", 1, 32, Lap, etime),
+        df!("SPX", "STime", 1, 32, Spx, stime),
+        df!("SPX", "ETime", 1, 32, Spx, etime),
+        df!("PSF", "STime", 1, 32, Psf, stime),
+        df!("FIN", "TTime", 1, 32, Fin, ttime),
+        df!("FIN", "BTime", 1, 32, Fin, btime),
+        df!("RES", "TTime", 1, 32, Res, ttime),
+        df!("RES", "BTime", 1, 32, Res, btime),
+        df!("RIP", "CTime", 1, 32, Rip, ctime),
+        df!("RIP", "TTime", 1, 32, Rip, ttime),
+        df!("UCO", "Time", 10, 32, Uco, time),
+        df!("CSC", "Time", 10, 32, Csc, time),
+        dsmall!("SMALL_SSP", 10, Ssp),
+        dsmall!("SMALL_SSG", 10, Ssg),
+        dsmall!("SMALL_STP", 10, Stp),
+        dsmall!("SMALL_RTP", 10, Rtp),
+        dsmall!("SMALL_NLI", 1, Nli),
+    ]
+}
